@@ -169,6 +169,15 @@ class LinkPair:
         return dict(k="stream", bufs=[list(b) for b in bufs], rets=rets, exc=exc, ask_no_ack=bool(ask_no_ack),
                     air=self._air_since(n0))
 
+    def txread(self):
+        """the transmitting side reads whatever its RX FIFO holds (ACK payloads left there by send_only calls)"""
+        n0 = len(self.air.log)
+        got = []
+        while len(got) < 4 and self.tx.available():
+            got.append(list(self.tx.read() or b""))
+        self.settle()
+        return dict(k="txread", got=got, air=self._air_since(n0))
+
     def drain(self, limit=8):
         got = []
         while len(got) < limit and self.rx.available():
